@@ -7,9 +7,11 @@
 // enabled threads by ascending id, then environment threads (Env, e.g. the clock), then threads that are blocked
 // but allow an early wake-up (BlockSoft). Choice 0 is free. Another choice costs one preemption if the running
 // (non-Env) thread is still enabled, or if it picks an Env thread while a non-Env thread could run (an "early"
-// environment step), or if it is an early wake-up; otherwise (running thread blocked/finished) it is free. Explore(bound) executes every schedule whose total cost is <= bound: run a choice prefix, extend
-// it with choice 0 to the end, then branch on every later point. Replaying a prefix must reproduce the recorded
-// enabled sets; a divergence is a hard HARNESS-ERROR (exit 2). Nothing is sampled.
+// environment step), or if it is an early wake-up; otherwise (running thread blocked/finished) it is free.
+// Explore() executes every schedule whose total cost is <= Bound: run a choice prefix, extend it with choice 0 to
+// the end, then branch on every later point. Replaying a prefix must reproduce the recorded enabled sets; a
+// divergence is a hard HARNESS-ERROR (exit 2). Deadlock = no enabled thread while some thread is unfinished.
+// MaxPoints is the explicit horizon. Nothing is sampled.
 package sched
 
 import (
@@ -172,7 +174,9 @@ func AcquireHook(op string, m interface{}, try func() bool) bool {
 
 func ReleaseHook(op string, m interface{}) {
 	if r, t := current(); t != nil {
-		r.holders[m]--
+		if r.holders[m] > 0 { // acquisitions that fell back to the real blocking lock were not counted
+			r.holders[m]--
+		}
 		r.relSeq[m]++
 	}
 }
